@@ -153,6 +153,15 @@ class _OverBudget(BaseException):
     pass
 
 
+def _utime():
+    """user-mode CPU time of the calling thread: the kernel's work for page faults
+    (deep recursion touches fresh stack pages; they cost milliseconds each on a
+    loaded machine here) is not work of the parser"""
+    import resource
+
+    return resource.getrusage(resource.RUSAGE_THREAD).ru_utime
+
+
 def steps(src, limit=None):
     """(calls under the pycparser package, wall seconds, outcome); with a limit
     the parse is abandoned once it has made that many calls (outcome 'budget')"""
@@ -164,7 +173,7 @@ def steps(src, limit=None):
     lim = limit or 1 << 62
 
     cpu_lim = max(CPU_BUDGET, len(src) / 200.0) if limit else None
-    t_start = time.thread_time()
+    t_start = _utime()
 
     def prof(frame, event, arg):
         # every Python-level call made while parse() runs counts, also those the
@@ -174,7 +183,7 @@ def steps(src, limit=None):
             cnt[0] += 1
             if cnt[0] > lim:
                 raise _OverBudget()
-            if cpu_lim is not None and (cnt[0] & 1023) == 0 and time.thread_time() - t_start > cpu_lim:
+            if cpu_lim is not None and (cnt[0] & 1023) == 0 and _utime() - t_start > cpu_lim:
                 raise _OverBudget("cpu")
 
     p = c_parser.CParser()
@@ -206,14 +215,14 @@ def steps_lines(src, limit=None):
 
     lim = limit or 1 << 62
     cpu_lim = max(CPU_BUDGET, len(src) / 200.0) if limit else None
-    t_start = time.thread_time()
+    t_start = _utime()
 
     def local(frame, event, arg):
         if event == "line":
             cnt[0] += 1
             if cnt[0] > lim:
                 raise _OverBudget()
-            if cpu_lim is not None and (cnt[0] & 4095) == 0 and time.thread_time() - t_start > cpu_lim:
+            if cpu_lim is not None and (cnt[0] & 4095) == 0 and _utime() - t_start > cpu_lim:
                 raise _OverBudget("cpu")
         return local
 
@@ -259,7 +268,7 @@ def in_big_thread(fn, *a):
     return out[0][1]
 
 
-CPU_BUDGET = 10.0  # seconds of thread CPU time for one parse of a family member (the unchanged tree needs < 0.1 s)
+CPU_BUDGET = 15.0  # seconds of user-mode thread CPU time for one parse of a family member (the unchanged tree needs < 0.1 s)
 FIRST_SIZE_BUDGET = 3000000  # events; the smallest members of all families take < 60 000 on the unchanged tree
 RATIO = 2.3
 SLACK = 400
@@ -482,6 +491,13 @@ LEX_FAMILIES = {
     "hash_line_digits": lambda n: "#" + " 1" * n,
     "pragma_text": lambda n: "#pragma " + "x " * n,
     "punctuator_runs": lambda n: "<<=" * n + ">>>" * n + "..." * n,
+    # white space is input too: a run of blanks before a token, blank lines, blanks at line ends
+    "blanks_then_token": lambda n: "int" + " " * n + "x;",
+    "tabs_then_token": lambda n: "int" + "\t" * n + "x;",
+    "mixed_blanks_then_token": lambda n: "int" + " \t\f\v" * (n // 4 + 1) + "x;",
+    "blank_lines": lambda n: "int x;" + "\n" * n + "int y;",
+    "blanks_at_line_ends": lambda n: "int x;" + " \n" * n + "int y;",
+    "indented_blank_lines": lambda n: "int x;" + "\n   " * n + "int y;",
 }
 
 
